@@ -1,6 +1,6 @@
 SPECIFICATION Spec
 CONSTANTS Mds0 = 2  MdsUp <- MdsUp3  MinPkts = 4  InitPkts = 5  MaxPkts = 6  MinBps = 2  SlotAdd = 0
-  PrSet <- PrQ  SmallOn = TRUE  MaxPn = 7  MaxEv = 14
+  PrSet <- PrQ  SmallOn = TRUE  MaxPn = 6  MaxEv = 13
   ClampOn = TRUE  RecFloorOn = TRUE  MinBpsOn = TRUE  PruneOn = TRUE  MdsClampOn = TRUE
 INVARIANT PrintScn
 
